@@ -33,11 +33,143 @@ def _gen_line(rng):
             "lineno": rng.choice([None, 3]), "stream": "germline", "hit": sorted(hit)}
 
 
+PAIRS = [("gdc-1.0.0-aliquot-merged", "gdc-1.0.0-aliquot-merged-masked"), ("gdc-2.0.0-aliquot-merged", "gdc-2.0.0-aliquot-merged-masked"),
+         ("gdc-1.0.0-aliquot-merged-masked", "gdc-1.0.0-aliquot-merged-masked"), (None, "gdc-1.0.0-aliquot-merged-masked"),
+         ("gdc-1.0.0-unknown-annotation", "gdc-2.0.0-aliquot-merged-masked")]
+
+
+def _gen_readov(rng):
+    """a file whose pragmas name another (or no) scheme, read with scheme=<masked scheme>"""
+    named, forced = rng.choice(PAIRS)
+    cols = SP.layout(forced)["columns"]
+    lines = []
+    hit = []
+    for _ in range(rng.randint(1, 3)):
+        fields = [G.valid_text(rng, d) for _, d in cols]
+        gl = [i for i, (n, _) in enumerate(cols) if n in SP.GERMLINE6]
+        for i in rng.sample(gl, rng.choice([0, 1, 2])):
+            fields[i] = rng.choice(["A", "ACGT", "7", "0", "-"])
+            hit.append(i)
+        lines.append([f.replace("\t", " ").replace("\n", " ").replace("\r", " ") for f in fields])
+    return {"kind": "readov", "named": named, "forced": forced, "rows": lines, "mode": rng.choice([1, 2, 3]), "stream": "reader-override",
+            "hit": sorted(set(hit))}
+
+
+def _run_readov(case):
+    from maflib.reader import MafReader
+    from maflib.scheme_factory import find_scheme
+    from maflib.validation import ValidationStringency, MafFormatException
+    forced = find_scheme(version=SP.layout(case["forced"])["version"], annotation=case["forced"])
+    names = forced.column_names()
+    hdr = ["#version gdc-1.0.0"] + (["#annotation.spec %s" % case["named"]] if case["named"] else [])
+    lines = hdr + ["\t".join(names)] + ["\t".join(r) for r in case["rows"]]
+    mode = getattr(ValidationStringency, G.MODES[case["mode"]])
+    out = {"raised": None, "exposed": [], "n": 0, "scheme_used": None}
+    try:
+        rd = MafReader(lines=lines, validation_stringency=mode, scheme=forced)
+        out["scheme_used"] = rd.scheme().annotation_spec() if rd.scheme() is not None else None
+        for rec in rd:
+            out["n"] += 1
+            for g in SP.GERMLINE6:
+                v = rec.value(g)
+                if v is not None:
+                    out["exposed"].append([g, H.enc_value(v)])
+    except MafFormatException as e:
+        out["raised"] = "MafFormatException"
+    except Exception as e:
+        out["raised"] = type(e).__name__
+    return {"cmp": {"readov": True}, "extra": out}
+
+
+HDR_PAIRS = [("gdc-1.0.0-protected", "gdc-1.0.0-public"), ("gdc-1.0.1-protected", "gdc-1.0.1-public"),
+             ("gdc-1.0.0-aliquot-merged", "gdc-1.0.0-aliquot-merged-masked"),
+             ("gdc-2.0.0-aliquot-merged", "gdc-2.0.0-aliquot-merged-masked")]
+
+
+def _gen_hdredit(rng):
+    """a header first read (and used) under an unmasked annotation, then re-labelled
+    as the masked one -- by replacing the record, by editing it in place, or by
+    building a second header -- and used by a Strict writer"""
+    un, ma = rng.choice(HDR_PAIRS)
+    cols = SP.layout(ma)["columns"]
+    fields = [G.valid_text(rng, d).replace("\t", " ").replace("\n", " ").replace("\r", " ") for _, d in cols]
+    gl = [i for i, (n, _) in enumerate(cols) if n in SP.GERMLINE6]
+    hit = rng.sample(gl, rng.choice([1, 2, 3]))
+    for i in hit:
+        fields[i] = rng.choice(["A", "ACGT", "7", "1"])
+    return {"kind": "hdredit", "from": un, "to": ma, "how": rng.choice(["inplace", "setitem", "fresh"]),
+            "prime": rng.choice([True, True, False]), "row": fields, "hit": sorted(hit), "mode": 1, "stream": "header-relabel"}
+
+
+def _run_hdredit(case):
+    import os
+    import tempfile
+    from maflib.header import MafHeader, MafHeaderRecord
+    from maflib.record import MafRecord
+    from maflib.scheme_factory import find_scheme
+    from maflib.validation import ValidationStringency, MafFormatException
+    from maflib.writer import MafWriter
+    ver = SP.layout(case["to"])["version"]
+    out = {"raised": None, "scheme_after": None, "file_germline": [], "names_ok": None}
+    masked = find_scheme(version=ver, annotation=case["to"])
+    hdr = MafHeader.from_lines(["#version %s" % ver, "#annotation.spec %s" % case["from"]],
+                               validation_stringency=ValidationStringency.Silent)
+    if case["prime"]:
+        hdr.scheme()
+    key = MafHeader.AnnotationSpecKey
+    if case["how"] == "inplace":
+        hdr[key].value = case["to"]
+    elif case["how"] == "setitem":
+        hdr[key] = MafHeaderRecord.from_line("#annotation.spec %s" % case["to"])[0] \
+            if hasattr(MafHeaderRecord, "from_line") else hdr[key]
+        if hdr[key].value != case["to"]:
+            hdr[key].value = case["to"]
+    else:
+        hdr = MafHeader.from_lines(["#version %s" % ver, "#annotation.spec %s" % case["to"]],
+                                   validation_stringency=ValidationStringency.Silent)
+    sch = hdr.scheme()
+    out["scheme_after"] = sch.annotation_spec() if sch is not None else None
+    fd, path = tempfile.mkstemp(suffix=".maf")
+    os.close(fd)
+    try:
+        try:
+            w = MafWriter.from_path(path=path, header=hdr, validation_stringency=ValidationStringency.Strict)
+            try:
+                rec = MafRecord.from_line("\t".join(case["row"]), column_names=masked.column_names(), scheme=masked,
+                                          validation_stringency=ValidationStringency.Silent)
+                w += rec
+            finally:
+                w.close()
+        except MafFormatException:
+            out["raised"] = "MafFormatException"
+        except Exception as e:
+            out["raised"] = type(e).__name__
+        with open(path) as fh:
+            body = [l.rstrip("\n") for l in fh if not l.startswith("#")]
+        if body:
+            names = body[0].split("\t")
+            out["names_ok"] = names == masked.column_names()
+            for l in body[1:]:
+                fs = l.split("\t")
+                for i, n in enumerate(names):
+                    if n in SP.GERMLINE6 and i < len(fs) and fs[i] != "":
+                        out["file_germline"].append([n, fs[i]])
+    finally:
+        os.unlink(path)
+    return {"cmp": {"hdredit": True}, "extra": out}
+
+
 def generate(rng, n):
     out = []
     for _ in range(n):
         r = rng.random()
+        if r < 0.05:
+            out.append(_gen_hdredit(rng))
+            continue
         if r < 0.12:
+            out.append(_gen_readov(rng))
+            continue
+        if r < 0.2:
             out.append(G.gen_writeseq(rng, annots=SP.MASKED_LAYOUTS))
         elif r < 0.6:
             out.append(_gen_line(rng))
@@ -51,11 +183,35 @@ def corpus():
     return []
 
 
-skip_compare = G.model_dontcare
-shrink = G.shrink
-to_model = G.to_model
-from_model = G.from_model
-run_impl = G.run_impl
+def skip_compare(case):
+    return case["kind"] in ("readov", "hdredit") or G.model_dontcare(case)
+
+
+def shrink(case):
+    if case["kind"] == "hdredit":
+        return
+    if case["kind"] == "readov":
+        for i in range(len(case["rows"])):
+            if len(case["rows"]) > 1:
+                yield dict(case, rows=case["rows"][:i] + case["rows"][i + 1:])
+        return
+    yield from G.shrink(case)
+
+
+def to_model(case):
+    return [4] if case["kind"] in ("readov", "hdredit") else G.to_model(case)
+
+
+def from_model(case, sx):
+    if case["kind"] in ("readov", "hdredit"):
+        return {case["kind"]: True}
+    return G.from_model(case, sx)
+
+
+def run_impl(case):
+    if case["kind"] == "hdredit":
+        return _run_hdredit(case)
+    return _run_readov(case) if case["kind"] == "readov" else G.run_impl(case)
 
 
 def comparable(obs):
@@ -63,6 +219,30 @@ def comparable(obs):
 
 
 def oracle(case, obs):
+    if case["kind"] == "hdredit":
+        ex = obs["extra"]
+        out = []
+        if ex["scheme_after"] != case["to"]:
+            out.append("header-relabelled-masked-still-yields-unmasked-scheme | %s via %s" % (ex["scheme_after"], case["how"]))
+        if ex["file_germline"]:
+            out.append("germline-value-written-under-masked-annotation | %s via %s" % (ex["file_germline"][:2], case["how"]))
+        if ex["names_ok"] is False:
+            out.append("masked-header-written-with-other-columns | via %s" % case["how"])
+        if ex["raised"] not in (None, "MafFormatException"):
+            out.append("writer-raised-other-exception | %s" % ex["raised"])
+        return out
+    if case["kind"] == "readov":
+        ex = obs["extra"]
+        out = []
+        if ex["scheme_used"] not in (case["forced"], None) :
+            out.append("reader-ignored-the-forced-masked-scheme | used %s" % ex["scheme_used"])
+        if ex["exposed"]:
+            out.append("germline-value-exposed-through-reader | %s" % ex["exposed"][:2])
+        if case["mode"] == 1 and case["hit"] and ex["raised"] != "MafFormatException":
+            out.append("strict-reader-accepted-non-null-germline | raised=%s" % ex["raised"])
+        if ex["raised"] not in (None, "MafFormatException"):
+            out.append("reader-raised-other-exception | %s" % ex["raised"])
+        return out
     if case["kind"] == "writeseq":
         out = []
         for per_line in obs["extra"].get("germline_nonnull", []):
@@ -106,8 +286,13 @@ def signature(case, violation):
     return violation.split(" | ")[0]
 
 
-classify = G.classify
+def classify(case, obs):
+    if case["kind"] == "hdredit":
+        return "hdredit/%s/%s/prime=%s" % (case["to"], case["how"], case["prime"])
+    if case["kind"] == "readov":
+        return "readov/%s->%s/mode=%s" % (case["named"], case["forced"], G.MODES[case["mode"]])
+    return G.classify(case, obs)
 
 
 def nontrivial(case, obs):
-    return bool(case.get("hit")) or case["kind"] == "writeseq"
+    return bool(case.get("hit")) or case["kind"] in ("writeseq", "readov", "hdredit")
